@@ -2,6 +2,7 @@ import Blots.Drv.Core
 import Blots.Drv.Units
 import Blots.Drv.Print
 import Blots.Drv.NumText
+import Blots.Drv.Json
 /-
   Line-protocol driver for the executable model: one request per line, one response per
   line.  A request is the inside of an S-expression list: `cmd arg …`.
@@ -10,6 +11,7 @@ import Blots.Drv.NumText
 open Blots
 
 def handlers : List (List Sx → Option String) := [
+  Drv.handleJson,
   Drv.handleUnits,
   Drv.handleNumText,
   Drv.handleCore,
